@@ -1,0 +1,7 @@
+//go:build verif && !amd64
+
+package mathext
+
+func VerifHasBMI2() bool                  { return false }
+func VerifPdepBMI2(x, mask uint64) uint64 { return pdepGeneric(x, mask) }
+func VerifPextBMI2(x, mask uint64) uint64 { return pextGeneric(x, mask) }
